@@ -26,7 +26,7 @@ var (
 func runFieldStreams(out *vOut, r *rand.Rand, n int) {
 	pkg := types.NewPackage("example.com/p", "p")
 	fset := token.NewFileSet()
-	names := []string{"Foo", "foo", "FOO", "Bar", "bar", "baz", "X", "x", "Fo"}
+	names := []string{"Foo", "foo", "FOO", "Bar", "bar", "baz", "X", "x", "Fo", "_", "_foo", "__", "_", "_Bar"}
 	tags := []struct {
 		tag       string
 		prevented bool
